@@ -10,6 +10,8 @@ from engine.model import src, stmt_key, dotted, walk_no_nested
 from engine.util import own_nodes, calls_with_nodes, where
 
 RULES = {
+    "R-19.7": "a clone is the same tree: in BTree.__init__ every structural attribute of the copy (t, root, size) is taken from the original's attribute of the same name, so node capacity and the nodes it governs stay consistent",
+    "R-19.6": "cursor direction: next() records `increasing = True` (prev(): False) on every trip before it reads an element, whether or not it had to descend first - the flag decides the descent after the next internal key and the side a parked cursor re-seeks on",
     "R-19.1": "every in-place write to a B-tree node (elts/children) and every call of a node-mutating method has an OWNED receiver (self of a mutating method, result of maybe_cow_child/_get_node/clone/constructor); values read from X.children[...] are shared",
     "R-19.2": "every BTree method that changes the tree first passes _check_mutable_and_park() and cows the root; _check_mutable_and_park raises when frozen; freezing is one-way; cloning requires a frozen original",
     "R-19.5": "insert_nonfull: after a full child was split (its median moved up into this node) the search of this node restarts before descending - the key being inserted may now be this node's own element",
@@ -288,6 +290,33 @@ def run(model, rep, tier):
                   "after child.split() the node is searched again before any descent or return",
                   "after splitting a full child the code descends without searching this node again: when the key equals the median that just moved up, it is inserted a second time below "
                   "(duplicate key, len() off by one, lookup returns the old value)", stmt="research-after-split")
+    # ---------------------------------------------------------------- R-19.6
+    for (qn, val) in (("dns.btree.Cursor.next", True), ("dns.btree.Cursor.prev", False)):
+        fc = model.func(qn)
+        cc = CFG(fc.node, implicit_exc=False)
+        stores = [n.id for n in cc.stmts() if isinstance(n.ast, ast.Assign) and src(n.ast.targets[0]) == "self.increasing" and isinstance(n.ast.value, ast.Constant) and n.ast.value.value is val]
+        reads = [n for n in cc.stmts() if isinstance(n.ast, ast.Assign) and isinstance(n.ast.value, ast.Subscript) and src(n.ast.value.value) == "self.current_node.elts"]
+        if not reads:
+            rep.blind("R-19.6", qn, where(fc, fc.node), "the element read `self.current_node.elts[...]` was not found", stmt="direction-flag")
+        for r_ in reads:
+            rep.check(bool(stores) and cc.dominated_by_set(r_.id, stores), "R-19.6", qn, where(fc, r_.ast), f"`self.increasing = {val}` precedes the element read on every path",
+                      f"an element is read on a path that never passed `self.increasing = {val}` (the store is missing or conditional): after a seek/step in the other direction the flag stays stale, "
+                      "so the cursor skips the descent into a subtree (elements silently omitted) and a parked cursor re-seeks on the wrong side of its key", stmt="direction-flag")
+    # ---------------------------------------------------------------- R-19.7
+    bi = model.func("dns.btree.BTree.__init__")
+    arm = [n for n in ast.walk(bi.node) if isinstance(n, ast.If) and any(a[0] == "original" and a[1] == "is not" for a in atoms(normalise_compare(n.test)))]
+    if len(arm) != 1:
+        rep.blind("R-19.7", bi.qualname, where(bi, bi.node), "the `original is not None` arm was not found", stmt="clone-attrs")
+    else:
+        n_cl = 0
+        for st in arm[0].body:
+            if isinstance(st, ast.Assign) and isinstance(st.targets[0], ast.Attribute) and src(st.targets[0].value) == "self":
+                n_cl += 1
+                attr = st.targets[0].attr
+                rep.check(src(st.value) == f"original.{attr}", "R-19.7", bi.qualname, where(bi, st), f"self.{attr} = original.{attr}",
+                          f"the clone's `{attr}` is `{src(st.value)}`, not `original.{attr}`: the copy shares the original's nodes but disagrees with them about {attr} "
+                          "(e.g. a default t = 127 on top of nodes built for t = 3: nodes never split or overfill, lookups degrade and in-order insertion asserts)", stmt=f"clone-attr {attr}")
+        rep.floor("R-19.7", n_cl, 3)
     rep.meta["explanation"] = (
         "Ownership typestate for B-tree nodes: a fixpoint computes which _Node methods/parameters require an owned receiver (they write elts/children "
         "directly or transitively); every write and every such call in dns/btree.py is then checked with reaching definitions to have an owned receiver "
@@ -423,6 +452,10 @@ def _root_owned(cfg, at):
 
 
 WITNESSES = [
+    {"id": "c19-next-direction-flag-conditional", "rule": "R-19.6", "file": "dns/btree.py", "expect": "fires",
+     "old": "                self.recurse = False\n            self.increasing = True\n", "new": "                self.recurse = False\n                self.increasing = True\n"},
+    {"id": "c19-clone-takes-default-t", "rule": "R-19.7", "file": "dns/btree.py", "expect": "fires",
+     "old": "            self.t = original.t\n", "new": "            self.t = t\n"},
     {"id": "c19-no-research-after-split", "rule": "R-19.5", "file": "dns/btree.py", "expect": "fires",
      "old": "                    self.adopt(*child.split())\n                    # Splitting might result in our target moving to us, so\n                    # search again.\n                    continue\n",
      "new": "                    left, middle, right = child.split()\n                    self.adopt(left, middle, right)\n                    if key > middle.key():\n                        i += 1\n                        child = right\n"},
